@@ -257,6 +257,39 @@ def ob_frame_transformed(op):
     return Ob("C06.frame.transformed[%s]" % op, "U", body, clause="device/dtype move keeps the parameterisation", funcs=FUNCS)
 
 
+def ob_inplace_update(kind):
+    """heights follow an in-place parameter update + change notification (what the optimiser does)"""
+    def body():
+        tree = ((0, 1), (2, 3))
+        T = 4
+        names = NAMES[:T]
+        dates = [0.0, 1.0, 0.0, 2.0]
+        x = torch.tensor([0.5, 0.25, 3.0], dtype=torch.float64) if kind == "ratios" else torch.tensor([0.5, 0.7, 0.3], dtype=torch.float64)
+        tm, newick = treemodels.build_reparam(tree, names, dates, x.clone(), kind)
+        p = tm._internal_heights
+        _ = tm.node_heights, tm.branch_lengths(), tm()
+        with torch.no_grad():
+            p.tensor.mul_(0.9) if kind == "ratios" else p.tensor.add_(0.25)
+        p.fire_parameter_changed()
+        got_h, got_b = tm.node_heights.clone(), tm.branch_lengths().clone()
+        back = tm.transform.inv(got_h[..., T:])
+        fresh, _ = treemodels.build_reparam(tree, names, dates, p.tensor.clone(), kind)
+        if not (torch.allclose(got_h, fresh.node_heights) and torch.allclose(got_b, fresh.branch_lengths()) and torch.allclose(back, p.tensor)):
+            raise Refuted("after an in-place update + notification the %s tree reports heights %s, a fresh model with the same parameters %s; inv gives %s for parameters %s"
+                          % (kind, got_h.tolist(), fresh.node_heights.tolist(), back.tolist(), p.tensor.tolist()),
+                          witness={"kind": kind}, replay={"kind": "custom", "contract": "C06", "func": "replay_inplace", "args": {"kind": kind}}, confirmed=True)
+        return {"backend": "heap", "statement": "%s tree: heights, branch lengths and inverse follow an in-place update" % kind}
+    return Ob("C06.update.inplace[%s]" % kind, "U", body, clause="heights are those of the current parameters", funcs=FUNCS)
+
+
+def replay_inplace(args):
+    try:
+        ob_inplace_update(args["kind"]).fn()
+    except Refuted as e:
+        return False, e.detail
+    return True, "held"
+
+
 def replay_frame(args):
     ob = ob_frame(args["kind"], args["op"])
     try:
@@ -319,4 +352,6 @@ def obligations(tier, seed):
             obs.append(ob_frame(kind, op))
     for op in ("cpu", "to_float64"):
         obs.append(ob_frame_transformed(op))
+    for kind in ("ratios", "shifts"):
+        obs.append(ob_inplace_update(kind))
     return obs
